@@ -520,13 +520,23 @@ def _family(fam, base, inputs, nvar, salt):
         _mk(fam, tag, fn(), inputs)
     # variants that need a particular feature (a ligand, an aromatic ring, an
     # acid): made wherever the feature exists, for every third family
+    def two_chain_cbt():
+        chains = []
+        for k, it in base:
+            if k == 'A' and it.tag == 'ATOM  ' and it.chain not in chains:
+                chains.append(it.chain)
+        return v_drop_oxt(base) if len(chains) >= 2 else None
     special = [
+        ('cbt', two_chain_cbt),
         ('unkc', lambda: v_unknown_element_in_ring(base)),
         ('lgF', lambda: v_ligand_halogen(base, 'F')),
         ('lgCl', lambda: v_ligand_halogen(base, 'Cl')),
     ]
+    have = set(i['id'] for i in inputs)
     for n, (tag, fn) in enumerate(special):
-        if nvar and (salt + n) % 3 == 0 or tag.startswith('lg') and nvar:
+        if '{0}.{1}'.format(fam, tag) in have:
+            continue
+        if nvar and ((salt + n) % 3 == 0 or tag.startswith('lg') or tag == 'cbt'):
             _mk(fam, tag, fn(), inputs)
 
 
